@@ -339,3 +339,17 @@ def _mk_rule_sym(chars, title, tiers, timeout):
 _mk_rule_sym("-", "", ("quick", "thorough"), 600)
 _mk_rule_sym("中", "", ("thorough",), 1500)
 _mk_rule_sym("-", "t", ("thorough",), 1500)
+
+
+@symx("C08-bar-thumb", timeout=900, kind="C+S", functions=["rich/bar.py:Bar.__rich_console__"],
+      bounds="Bar(size, begin, end) as a scrollbar thumb: size in {8, 100, 1000}, begin 0..15, end = begin + {0, 1, 2, 5}, available "
+             "width 1..40, colour on/off (solver-enumerated, native): one line, never wider than the width, exactly the width")
+def c08_bar_thumb(e):
+    size = [8, 100, 1000][int(e.mk("size", 0, 2))]
+    begin = int(e.mk("begin", 0, 15))
+    end = begin + [0, 1, 2, 5][int(e.mk("extent", 0, 3))]
+    w = int(e.mk("width", 1, 40))
+    color = bool(e.mkbool("color"))
+    c = cat.console(color_system="truecolor" if color else None, force_terminal=color)
+    lines = cat.render_lines(c, Bar(size, begin, end), w)
+    return len(lines) == 1 and rw(lines[0]) == w
